@@ -41,18 +41,42 @@ def showSnapshot (c : Cache) : String :=
     else some (s!"{w}=" ++ "+".intercalate (l.map fun e => s!"{e.1}.{e.2}"))
   if parts.isEmpty then "-" else ";".intercalate parts
 
-def parseLine (line : String) : Option (Bool × List Op) :=
+/-- a step of the script: one op, or the concurrent group `P<w><i><s>` (register ∥ archive of the
+    same wallet, gated so that the registration holds the registry mutex first). -/
+inductive Tok where
+  | one (op : Op)
+  | par (w i s : Nat)
+
+def parseTok (wallet : Bool) (s : String) : Option Tok :=
+  match s.toList with
+  | ['P', w, i, sh] => do
+    let w ← digit? w; let i ← digit? i; let sh ← digit? sh
+    if w < 1 || w > 4 || i < 1 || sh > 4 then none else some (.par w i sh)
+  | _ => (parseOp wallet s).map .one
+
+def parseLine (line : String) : Option (Bool × List Tok) :=
   match splitWs line with
   | [fam, _seed, steps] =>
-    if fam = "wreg" then ((splitList steps).mapM (parseOp true)).map (true, ·)
-    else if fam = "greg" then ((splitList steps).mapM (parseOp false)).map (false, ·)
+    if fam = "wreg" || fam = "creg" then ((splitList steps).mapM (parseTok true)).map (true, ·)
+    else if fam = "greg" then ((splitList steps).mapM (fun t => (parseOp false t).map Tok.one)).map (false, ·)
     else none
   | _ => none
 
+/-- model of a script: a concurrent group is register then archive (each atomic under the registry
+    mutex, in the order the harness forces); only the state at quiescence is observed. -/
+def modelRun (wallet : Bool) : St → List Tok → List String
+  | _, [] => []
+  | s, .one op :: rest =>
+    let (s', r) := step wallet s op
+    (showRes r ++ "/" ++ showSnapshot s'.cache) :: modelRun wallet s' rest
+  | s, .par w i sh :: rest =>
+    let (s1, r1) := step wallet s (.reg w i sh .none)
+    let (s2, r2) := step wallet s1 (.arch w .none)
+    (showRes r1 ++ "+" ++ showRes r2 ++ "/" ++ showSnapshot s2.cache) :: modelRun wallet s2 rest
+
 def model (line : String) : String :=
   match parseLine line with
-  | some (wallet, ops) =>
-    showList ((run wallet {} ops).map fun (r, c) => showRes r ++ "/" ++ showSnapshot c)
+  | some (wallet, toks) => showList (modelRun wallet {} toks)
   | none => "bad-op"
 
 def parseRes : String → Option Res
@@ -79,22 +103,46 @@ def parseSnapshot (s : String) : Option (List (Nat × List (Nat × Nat))) :=
       pure (w, es)
     | _ => none
 
+def parseSnapEntry (s : String) : Option (String × Snap) :=
+  match s.splitOn "/" with
+  | [r, snap] => (parseSnapshot snap).map (r, ·)
+  | _ => none
+
+/-- ops and trace handed to `holdsTrace`: a concurrent group becomes its two atomic steps; the
+    snapshot between them is not observable and is reconstructed as "what a successful
+    registration means": the previous snapshot plus the registered signer. -/
+def expand (prev : Snap) : List Tok → List (String × Snap) → Option (List Op × List (Res × Snap))
+  | [], [] => some ([], [])
+  | .one op :: rest, (r, sn) :: tr => do
+    let r ← parseRes r
+    let (ops, trace) ← expand sn rest tr
+    pure (op :: ops, (r, sn) :: trace)
+  | .par w i sh :: rest, (r, sn) :: tr =>
+    match r.splitOn "+" with
+    | [a, b] => do
+      let a ← parseRes a; let b ← parseRes b
+      let hidden := if a == .ok then addSigner prev w (i, sh) else prev
+      let (ops, trace) ← expand sn rest tr
+      pure (.reg w i sh .none :: .arch w .none :: ops, (a, hidden) :: (b, sn) :: trace)
+    | _ => none
+  | _, _ => none
+
 def monitor (op obs : String) : String :=
   match parseLine op with
   | none => "FAIL bad-op"
-  | some (wallet, ops) =>
+  | some (wallet, toks) =>
     let entries := splitList obs
     if entries.any (fun e => (e.splitOn "!").length > 1) then "FAIL lookups-disagree"
     else if entries.any (fun e => (e.splitOn "?").length > 1) then "FAIL key-material-differs"
     else if entries.any (fun e => (e.splitOn "PANIC").length > 1) then "FAIL lookup-panic"
     else
-    match entries.mapM parseEntry with
+    match entries.mapM parseSnapEntry with
     | none => "FAIL unparsable-observation"
     | some es =>
-      match es.mapM (fun e => do let r ← parseRes e.1; let sn ← parseSnapshot e.2; pure (r, sn)) with
+      if es.length ≠ toks.length then "FAIL observation-length" else
+      match expand [] toks es with
       | none => "FAIL unparsable-observation"
-      | some trace =>
-        if trace.length ≠ ops.length then "FAIL observation-length"
-        else if holdsTrace wallet [] [] ops trace then "ok" else "FAIL registry-rule"
+      | some (ops, trace) =>
+        if holdsTrace wallet [] [] ops trace then "ok" else "FAIL registry-rule"
 
 def main (args : List String) : IO UInt32 := driverMain model monitor args
